@@ -4,7 +4,10 @@ package stack
 
 import (
 	"context"
+	"fmt"
 	"os"
+	"sort"
+	"strings"
 	"time"
 
 	"github.com/conduitio/conduit/pkg/connector"
@@ -125,6 +128,7 @@ func New(w *verifkit.World, plugins *fakes.Plugins, db *verifkit.VDB, opt Option
 		logger = log.New(zerolog.New(zerolog.ConsoleWriter{Out: os.Stderr, NoColor: true}).Level(zerolog.TraceLevel))
 	}
 	s := &Stack{W: w, Opt: opt, DB: db, Logger: logger, Plugins: plugins}
+	db.Describe = Describe
 	s.Persister = connector.NewPersister(logger, db, opt.PersisterDelay, opt.PersisterBundle)
 	s.Pipelines = pipeline.NewService(logger, db)
 	s.Connectors = connector.NewService(logger, db, s.Persister)
@@ -236,4 +240,72 @@ func (s *Stack) Status() string {
 		return "?"
 	}
 	return pl.GetStatus().String() + "|" + pl.Error
+}
+
+// Describe decodes the durable content with the REAL stores: stored source positions and the pipeline status.
+// Format: "pos=<src>:<idx>,...;status=<Status>;err=<0|1>".
+func Describe(values map[string][]byte) string {
+	ctx := context.Background()
+	db := verifkit.NewVDBFrom(nil, values)
+	var sb strings.Builder
+	conns, err := connector.NewStore(db, log.Nop()).GetAll(ctx)
+	sb.WriteString("pos=")
+	if err != nil {
+		sb.WriteString("!decode-error:" + err.Error())
+	} else {
+		ids := make([]string, 0, len(conns))
+		for id := range conns {
+			ids = append(ids, id)
+		}
+		sort.Strings(ids)
+		first := true
+		for _, id := range ids {
+			c := conns[id]
+			if c.Type != connector.TypeSource {
+				continue
+			}
+			idx := -1
+			if st, ok := c.State.(connector.SourceState); ok {
+				idx = fakes.PosIndex(st.Position)
+			}
+			if !first {
+				sb.WriteString(",")
+			}
+			first = false
+			fmt.Fprintf(&sb, "%s:%d", id, idx)
+		}
+	}
+	pls, err := pipeline.NewStore(db).GetAll(ctx)
+	if err == nil {
+		if pl, ok := pls[PipelineID]; ok {
+			hasErr := 0
+			if pl.Error != "" {
+				hasErr = 1
+			}
+			fmt.Fprintf(&sb, ";status=%s;err=%d", pl.GetStatus(), hasErr)
+		}
+	}
+	return sb.String()
+}
+
+// ParseDescribe parses the Describe format.
+func ParseDescribe(arg string) (pos map[string]int, status string, hasErr bool) {
+	pos = map[string]int{}
+	for _, f := range strings.Split(arg, ";") {
+		switch {
+		case strings.HasPrefix(f, "pos="):
+			for _, kv := range strings.Split(f[4:], ",") {
+				if k := strings.LastIndex(kv, ":"); k > 0 {
+					var n int
+					fmt.Sscanf(kv[k+1:], "%d", &n)
+					pos[kv[:k]] = n
+				}
+			}
+		case strings.HasPrefix(f, "status="):
+			status = f[7:]
+		case f == "err=1":
+			hasErr = true
+		}
+	}
+	return pos, status, hasErr
 }
